@@ -30,7 +30,7 @@ def plan(tier, seed):
                        'defvals_checked_pysnmp': 25000, 'chain_ge2': 25000, 'nondecimal_literals': 20000}}
 
 
-CLEAN = ['types', 'smi_tc', 'defval', 'defval_zero', 'split_imports']
+CLEAN = ['types', 'smi_tc', 'defval', 'defval_zero', 'split_imports', 'odd_labels']
 STRESS = ['defval_bits', 'defval_oid', 'defval_empty_string', 'defval_bin_octets', 'defval_empty_hex',
           'defval_hostile_string']
 
